@@ -167,6 +167,17 @@ pub fn build(tier: Tier) -> Check<'static> {
     }
     // part 4: token soups (those the tree accepts are judged)
     {
+        // the library-map grammar has its own terminals (bare file paths, -incdir): its own soup
+        let alpha: [&'static str; 12] = ["library", "include", "config", "endconfig", "l", "a.v", "\"q.v\"", ",", ";", "-incdir", "design", "// c\n"];
+        let sp = soup::strings(&alpha, 0, tier.pick(4, 5), &[" "]);
+        let n = sp.len();
+        c.parts.push(Part::new("library-soup", n * 2, "all sequences of <= 4 (quick) / 5 (thorough) of 12 library-map pieces (keywords, names, bare and quoted paths, separators, -incdir, a comment) joined by a blank, strict and incomplete", move |i, acc| {
+            let src = sp.get(i / 2);
+            let cls = check_source(acc, &src, true, i % 2 == 1, "library soup");
+            acc.class(cls);
+        }));
+    }
+    {
         let sp = soup::sigma_t(0, tier.pick(3, 4));
         let n = sp.len();
         c.parts.push(Part::new(
